@@ -15,13 +15,12 @@
 (* With cfg AtomicWritePlan the same walk is used to let TLC enumerate the       *)
 (* injection points of a fault-free reference run: every boundary where Crash    *)
 (* is enabled, every operation that may fail, every point the body may raise.    *)
-EXTENDS AtomicWriteOps, TLC, Json, IOUtils
+EXTENDS AtomicWriteOps, TLC, Json, IOUtils, SequencesExt
 
 Recs == ndJsonDeserialize(IOEnv.TRACE_FILE)
 N == Len(Recs)
 VARIABLE i
 
-ToSet(q) == {q[k] : k \in 1..Len(q)}
 InitSt(r) == [dir |-> r.init.dir, dest |-> r.init.orig,
               tmp |-> [k \in ToSet(r.init.stale) |-> [owner |-> "stale", data |-> TRUE]],
               wr |-> [w \in DOMAIN r.init.orig |-> NewWriter],
@@ -36,34 +35,41 @@ Bad(c, k, st, w) == [ok |-> FALSE, clause |-> c,
                      exp |-> [k |-> k, pc |-> IF w \in DOMAIN st.wr THEN st.wr[w].pc ELSE "", st |-> Show(st)]]
 Good == [ok |-> TRUE, clause |-> "", exp |-> 0]
 
-RECURSIVE Walk(_, _, _, _)
-Walk(st, evs, k, orig) ==
-    IF k > Len(evs) THEN Bad("post.missing", k, st, "")
-    ELSE LET e == evs[k] IN
-         IF Len(e.ls.other) # 0 THEN Bad("ls.other", k, st, e.w)
-         ELSE IF LsOf(e.ls) # Visible(st) THEN Bad(IF e.op = "post" THEN "post.ls" ELSE "ls", k, st, e.w)
-         ELSE IF e.op = "post" THEN
-              (IF k # Len(evs) THEN Bad("post.notlast", k, st, "")
-               ELSE IF \E w \in DOMAIN st.wr : ~(st.wr[w].ret \/ st.wr[w].pc = "dead") THEN Bad("post.unfinished", k, st, "")
-               ELSE Good)
-         ELSE LET g == Guard(st, e) IN
-              IF g # "" THEN Bad(g, k, st, e.w)
-              ELSE LET s2 == Apply(st, e) IN
-                   IF ~DestIntact(s2, orig) THEN Bad("prop.dest", k, s2, e.w)
-                   ELSE IF ~FailedClean(s2, orig) THEN Bad("prop.failed", k, s2, e.w)
-                   ELSE IF ~DoneNew(s2) THEN Bad("prop.done", k, s2, e.w)
-                   ELSE IF ~(NoSharedTemp(s2) /\ HoldsOwn(s2)) THEN Bad("prop.temps", k, s2, e.w)
-                   ELSE Walk(s2, evs, k + 1, orig)
+\* one event: acc = [st, k, v]; v stays Good until the first disagreement, then nothing is judged any more
+StepEv(acc, e, n, orig) ==
+    LET st == acc.st  k == acc.k IN
+    IF ~acc.v.ok THEN acc
+    ELSE IF Len(e.ls.other) # 0 THEN [acc EXCEPT !.v = Bad("ls.other", k, st, e.w)]
+    ELSE IF LsOf(e.ls) # Visible(st) THEN [acc EXCEPT !.v = Bad(IF e.op = "post" THEN "post.ls" ELSE "ls", k, st, e.w)]
+    ELSE IF e.op = "post" THEN
+         (IF k # n THEN [acc EXCEPT !.v = Bad("post.notlast", k, st, "")]
+          ELSE IF \E w \in DOMAIN st.wr : ~(st.wr[w].ret \/ st.wr[w].pc = "dead")
+               THEN [acc EXCEPT !.v = Bad("post.unfinished", k, st, "")]
+          ELSE [acc EXCEPT !.k = k + 1])
+    ELSE LET g == Guard(st, e) IN
+         IF g # "" THEN [acc EXCEPT !.v = Bad(g, k, st, e.w)]
+         ELSE LET s2 == Apply(st, e) IN
+              IF ~DestIntact(s2, orig) THEN [acc EXCEPT !.v = Bad("prop.dest", k, s2, e.w)]
+              ELSE IF ~FailedClean(s2, orig) THEN [acc EXCEPT !.v = Bad("prop.failed", k, s2, e.w)]
+              ELSE IF ~DoneNew(s2) THEN [acc EXCEPT !.v = Bad("prop.done", k, s2, e.w)]
+              ELSE IF ~(NoSharedTemp(s2) /\ HoldsOwn(s2)) THEN [acc EXCEPT !.v = Bad("prop.temps", k, s2, e.w)]
+              ELSE [st |-> s2, k |-> k + 1, v |-> Good]
+
+Walk(st0, evs, orig) ==
+    LET n == Len(evs)
+        r == FoldLeft(LAMBDA acc, e : StepEv(acc, e, n, orig), [st |-> st0, k |-> 1, v |-> Good], evs) IN
+    IF ~r.v.ok THEN r.v
+    ELSE IF n = 0 \/ evs[n].op # "post" THEN Bad("post.missing", n, r.st, "")
+    ELSE Good
 
 \* the run followed the schedule TLC chose (n is in units of r.unit bytes in the schedule)
 Same(p, e, u) == p.w = e.w /\ p.op = e.op /\ p.res = e.res /\ p.i = e.i /\ (p.op \in {"bcall", "write"} => p.n * u = e.n)
 Followed(r) == /\ Len(r.plan) + 1 = Len(r.ev)
                /\ \A k \in 1..Len(r.plan) : Same(r.plan[k], r.ev[k], r.unit)
 
-Verdict(r) == LET v == Walk(InitSt(r), r.ev, 1, r.init.orig) IN
-              IF ~v.ok THEN v
-              ELSE IF Len(r.plan) > 0 /\ ~Followed(r) THEN Bad("replay.diverged", 0, InitSt(r), "")
-              ELSE Good
+\* (a run that is accepted but did not follow its schedule exactly - the io stack retried a write,
+\* say - is still a behaviour of the design; Followed is only used for statistics)
+Verdict(r) == Walk(InitSt(r), r.ev, r.init.orig)
 
 Init == i = 0
 Next == i < N /\ i' = i + 1
@@ -72,13 +78,12 @@ Checked == i = 0 \/ LET v == Verdict(Recs[i]) IN
 AllConsumed == TLCGet("stats").diameter = N + 1
 
 (* ---- injection points of a reference run ---------------------------------------------- *)
-RECURSIVE StatesOf(_, _, _)
 \* states before each event (reference runs are accepted runs: guards hold)
-StatesOf(st, evs, k) == IF k > Len(evs) \/ evs[k].op = "post" THEN <<st>>
-                        ELSE <<st>> \o StatesOf(Apply(st, evs[k]), evs, k + 1)
+StatesOf(st0, evs) ==
+    FoldLeft(LAMBDA acc, e : IF e.op = "post" THEN acc ELSE Append(acc, Apply(acc[Len(acc)], e)), <<st0>>, evs)
 Faultable == {"mkdir", "open", "write", "close", "replace", "unlink"}
 Points(r) ==
-    LET sts == StatesOf(InitSt(r), r.ev, 1)
+    LET sts == StatesOf(InitSt(r), r.ev)
         one == [InitSt(r) EXCEPT !.faults = 1] IN
     {[k |-> k, kind |-> "crash", op |-> r.ev[k].op, pc |-> sts[k].wr[r.ev[k].w].pc] :
         k \in {j \in 1..(Len(sts) - 1) : Guard(sts[j], [r.ev[j] EXCEPT !.op = "crash"]) = ""}}
@@ -90,7 +95,8 @@ Points(r) ==
     {[k |-> k, kind |-> "bodyerr", op |-> r.ev[k].op, pc |-> sts[k].wr[r.ev[k].w].pc] :
         k \in {j \in 1..(Len(sts) - 1) : r.ev[j].op \in {"bcall", "endbody"}
                     /\ Guard(sts[j], [r.ev[j] EXCEPT !.op = "bodyerr"]) = ""}}
+\* (a reference run that is not accepted is reported by the validation of the records; no points then)
 PlanEmit == i = 0 \/ LET r == Recs[i] v == Verdict(r) IN
-              /\ v.ok \/ PrintT(ToJson([tag |-> "MISMATCH", i |-> i, clause |-> v.clause, exp |-> v.exp]))
-              /\ PrintT(ToJson([tag |-> "POINTS", i |-> i, t |-> r.t, points |-> Points(r)]))
+              IF v.ok THEN PrintT(ToJson([tag |-> "POINTS", i |-> i, t |-> r.t, points |-> Points(r)]))
+              ELSE PrintT(ToJson([tag |-> "REFBAD", i |-> i, t |-> r.t, clause |-> v.clause]))
 =============================================================================
